@@ -4,7 +4,7 @@
 From Coq Require Import List String Ascii Bool Arith ZArith Lia.
 Require Import OV.Export.Cleanup OV.Export.CleanupProofs.
 Require Import OV.Graph.Syntax OV.Graph.Names OV.Graph.Sem OV.Graph.SemProofs OV.Script.Syntax OV.Script.Translate OV.Gen.ScriptTables
-               OV.Script.PySem OV.Export.Emit OV.Export.EmitProofs OV.Export.EmitCF.
+               OV.Script.PySem OV.Export.Emit OV.Export.EmitProofs OV.Export.EmitCF OV.Gen.ExportTables.
 Import ListNotations.
 Local Open Scope string_scope.
 
@@ -197,6 +197,32 @@ Section PyFacts.
   Qed.
 End PyFacts.
 
+(* use_operators: the operator expression printed for a two-input node evaluates to what the call of that operator
+   evaluates to (Script/PySem.v reads `a <op> b` through the converter's operator table primop_map), for operands that
+   are not both Python scalars (two inlined literals: Python arithmetic, which PySem leaves undefined) *)
+Section OperatorSem.
+  Variable V : Type.
+  Variable sem : string -> string -> list (string * attrv) -> list (option V) -> option (list V).
+  Variable globals : list (string * lit).
+
+  Theorem binop_denotes_call : forall cls opname a b (pe : penv V) va vb,
+    lookup_assoc cls primop_map = Some opname -> String.eqb cls "Mod" = false ->
+    eval_expr V sem globals pe a = Some va -> eval_expr V sem globals pe b = Some vb -> is_scalar V va && is_scalar V vb = false ->
+    eval_expr V sem globals pe (EBin cls a b) = eval_expr V sem globals pe (ECall (COp opname) [Some a; Some b] []).
+  Proof.
+    intros cls opname a b pe va vb Hop Hmod Ha Hb Hsc. cbn [PySem.eval_expr]. rewrite Hop, Ha, Hb, Hsc.
+    unfold binop_attrs. rewrite Hmod. reflexivity.
+  Qed.
+
+  Theorem cmpop_denotes_call : forall cls opname a b (pe : penv V) va vb,
+    lookup_assoc cls primop_map = Some opname -> String.eqb opname "NotEqual" = false ->
+    eval_expr V sem globals pe a = Some va -> eval_expr V sem globals pe b = Some vb -> is_scalar V va && is_scalar V vb = false ->
+    eval_expr V sem globals pe (ECmp cls a b) = eval_expr V sem globals pe (ECall (COp opname) [Some a; Some b] []).
+  Proof.
+    intros cls opname a b pe va vb Hop Hne Ha Hb Hsc. cbn [PySem.eval_expr]. rewrite Hop, Ha, Hb, Hsc, Hne. reflexivity.
+  Qed.
+End OperatorSem.
+
 Lemma lookup_app_other : forall (V : Type) (b e : env V) x, ~ In x (map fst b) -> lookup (b ++ e)%list x = lookup e x.
 Proof.
   induction b as [|[y v] t IH]; intros e x H; [reflexivity|]. cbn [app lookup].
@@ -234,6 +260,7 @@ Section Nested.
   Variable rm : remaps.
   Variable NN : list vname.
   Variable brk : bool.
+  Variable use_ops : option bool.
 
   Notation tr := (tr rename rm).
   Notation tv := (tv rename rm).
@@ -1248,13 +1275,14 @@ Section Nested.
   Qed.
 
   (* ---- a plain node: Export/EmitProofs.v node_step, plus the frame ---------------------------------------- *)
-  Lemma plain_step : forall D n ss Dn,
-    wf_plain kw rename rm NN D n = Some Dn -> emit_node kw tr n = Some ss ->
+  Lemma plain_step : forall u D n ss Dn,
+    wf_plain kw rename rm NN u D n = Some Dn -> emit_node kw tr n = Some ss ->
     node_corr D Dn n ss /\ Dn = (filter nonempty (n_outs n) ++ D)%list /\ (forall o, In o (filter nonempty (n_outs n)) -> o <> "" /\ In o NN).
   Proof.
-    intros D n ss Dn Hw He. unfold wf_plain in Hw.
+    intros u D n ss Dn Hw He. unfold wf_plain in Hw.
     match type of Hw with (if ?b then _ else _) = _ => destruct b eqn:Hc; [|discriminate] end.
     inversion Hw; subst Dn. clear Hw.
+    apply andb_true_iff in Hc; destruct Hc as [Hc _].
     apply andb_true_iff in Hc; destruct Hc as [Hc Q5]. apply andb_true_iff in Hc; destruct Hc as [Hc Q4].
     apply andb_true_iff in Hc; destruct Hc as [Hc Q3]. apply andb_true_iff in Hc; destruct Hc as [Q1 Q2].
     pose proof (freshb_all D _ Q2) as Hfr.
@@ -1275,8 +1303,53 @@ Section Nested.
     apply lookup_app_other. rewrite Hb. intros C. destruct (HD x Hx) as [_ Hne]. destruct (Houts x C Hne) as [H1 _]. contradiction.
   Qed.
 
-  Notation en := (emit_node_with kw rename infun None None rm [] esub).
-  Notation wn := (wf_node kw rename rm NN brk wsub).
+  (* use_operators: the line `o = a <sym> b` runs like the call line of the same node, whenever the operands are bound *)
+  Lemma operator_step : forall u D dom op ins outs attrs sym p ss Dn,
+    u = Some p ->
+    wf_plain kw rename rm NN u D (Node dom op ins outs attrs []) = Some Dn ->
+    lookup_assoc op use_operators_table = Some sym ->
+    String.eqb op "If" = false -> String.eqb op "Loop" = false -> String.eqb op "Scan" = false ->
+    emit_operator rename u rm [] sym ins outs = Some ss ->
+    exists ss', emit_node kw tr (Node dom op ins outs attrs []) = Some ss' /\
+      forall e (pe : penv) rest, Inv D e pe ->
+        exec_block (S (S fp')) (ss ++ rest)%list pe = exec_block (S (S fp')) (ss' ++ rest)%list pe.
+  Proof.
+    intros u D dom op ins outs attrs sym p ss Dn Hu Hw Hop N1 N2 N3 He. subst u. unfold wf_plain in Hw.
+    match type of Hw with (if ?b then _ else _) = _ => destruct b eqn:Hc; [|discriminate] end. clear Hw.
+    apply andb_true_iff in Hc; destruct Hc as [Hc Q6]. apply andb_true_iff in Hc; destruct Hc as [Hc Q5].
+    apply andb_true_iff in Hc; destruct Hc as [Hc _]. apply andb_true_iff in Hc; destruct Hc as [Hc _]. apply andb_true_iff in Hc; destruct Hc as [Q1 _].
+    unfold op_line_okb in Q6. cbn [n_op n_dom n_attrs n_ins n_outs] in Q6, Q1, Q5. rewrite Hop in Q6.
+    apply andb_true_iff in Q6; destruct Q6 as [Q6 R5]. apply andb_true_iff in Q6; destruct Q6 as [Q6 R4].
+    apply andb_true_iff in Q6; destruct Q6 as [Q6 R3]. apply andb_true_iff in Q6; destruct Q6 as [R1 R2].
+    apply String.eqb_eq in R1. subst dom. apply negb_true_iff in R2.
+    destruct attrs as [|? ?]; [|discriminate R3].
+    destruct ins as [|[a|] [|[b|] [|? ?]]]; try discriminate R4. destruct outs as [|o [|? ?]]; try discriminate R4.
+    destruct (pyop sym) as [[cmp cls]|] eqn:Ep; [|discriminate R5].
+    destruct (lookup_assoc cls primop_map) as [o'|] eqn:Epm; [|discriminate R5].
+    apply andb_true_iff in R5; destruct R5 as [R5 R8]. apply andb_true_iff in R5; destruct R5 as [R6 R7].
+    apply String.eqb_eq in R6. subst o'. apply negb_true_iff in R7. apply negb_true_iff in R8.
+    unfold call_okb in Q5. apply andb_true_iff in Q5. destruct Q5 as [Q5 _]. apply String.eqb_eq in Q5.
+    assert (Eo : is_empty o = false) by (apply negb_true_iff; exact R4).
+    eexists. split.
+    - unfold emit_node. unfold is_cf. rewrite N1, N2, N3. cbn [String.eqb orb negb is_nil existsb].
+      unfold suppressed_identity. rewrite R2. cbn [andb out_names]. rewrite Eo, Q5. cbn [map in_expr option_map]. reflexivity.
+    - intros e pe rest HI. unfold emit_operator in He. rewrite Ep in He. cbv beta iota in He.
+      assert (Hr : forall x, ref_e rename rm [] (Some x) = EVar (tr x)) by (intros x; reflexivity).
+      rewrite !Hr in He. cbn [neg_operand] in He. rewrite (tv_tr o R4) in He.
+      assert (He' : ss = [SAssign (tr o) ((if cmp then ECmp else EBin) cls (EVar (tr a)) (EVar (tr b)))]).
+      { match type of He with context [if ?c then _ else _] => destruct c end; inversion He; reflexivity. }
+      subst ss. cbn [app]. rewrite !(exec_block_assign V sem truth trip of_nat limit globals).
+      rewrite forallb_forall in Q1.
+      destruct (HI a) as (va & _ & Pa); [apply memb_In; apply Q1; left; reflexivity|].
+      destruct (HI b) as (vb & _ & Pb); [apply memb_In; apply Q1; right; left; reflexivity|].
+      pose proof (eval_var_bound V sem globals pe (tr a) _ Pa) as Ea. pose proof (eval_var_bound V sem globals pe (tr b) _ Pb) as Eb.
+      destruct cmp.
+      + rewrite (cmpop_denotes_call V sem globals cls op (EVar (tr a)) (EVar (tr b)) pe _ _ Epm R8 Ea Eb eq_refl). reflexivity.
+      + rewrite (binop_denotes_call V sem globals cls op (EVar (tr a)) (EVar (tr b)) pe _ _ Epm R7 Ea Eb eq_refl). reflexivity.
+  Qed.
+
+  Notation en := (emit_node_with kw rename infun use_ops None rm [] esub).
+  Notation wn := (wf_node kw rename rm NN brk use_ops wsub).
 
   Lemma any_step : forall D n ss Dn, wn D n = Some Dn -> en n = Some ss ->
     node_corr D Dn n ss /\ exists news, Dn = (news ++ D)%list /\ (forall o, In o news -> o <> "" /\ In o NN).
@@ -1298,12 +1371,19 @@ Section Nested.
           rewrite Hb in Hw.
           destruct (forbreak_step D dom ins outs attrs subs ss Dn Hb Hw He) as (A & B & C).
           split; [exact A|]. exists outs. split; assumption. }
-    destruct (String.eqb op "Scan"); [discriminate|]. destruct (negb (is_nil subs)); [discriminate|].
-    destruct (plain_step D _ ss Dn Hw He) as (A & B & C). split; [exact A|]. eexists. split; [exact B|exact C].
+    destruct (String.eqb op "Scan") eqn:E3; [discriminate|]. destruct subs as [|? ?]; [|cbn [is_nil negb] in He; discriminate He]. cbn [is_nil negb] in He.
+    revert Hw He. generalize use_ops as u. intros u Hw He.
+    destruct u as [p|].
+    2:{ destruct (plain_step None D _ ss Dn Hw He) as (A & B & C). split; [exact A|]. eexists. split; [exact B|exact C]. }
+    revert He. destruct (lookup_assoc op use_operators_table) as [sym|] eqn:Eop; intros He.
+    2:{ destruct (plain_step (Some p) D _ ss Dn Hw He) as (A & B & C). split; [exact A|]. eexists. split; [exact B|exact C]. }
+    destruct (operator_step (Some p) D dom op ins outs attrs sym p ss Dn eq_refl Hw Eop E1 E2 E3 He) as (ss' & He' & Heq).
+    destruct (plain_step (Some p) D _ ss' Dn Hw He') as (A & B & C). split; [|eexists; split; [exact B|exact C]].
+    intros e pe rest HI HD. rewrite (Heq e pe rest HI). exact (A e pe rest HI HD).
   Qed.
 
   Lemma list_corr : forall ns D Dfin ss,
-    wf_list kw rename rm NN brk wsub D ns = Some Dfin -> emit_all en ns = Some ss ->
+    wf_list kw rename rm NN brk use_ops wsub D ns = Some Dfin -> emit_all en ns = Some ss ->
     corr (eval_body evg') (S fp') D Dfin ns ss.
   Proof.
     induction ns as [|n t IH]; intros D Dfin ss Hw He.
@@ -1330,9 +1410,11 @@ Section Nested.
 
   (* ---- every nesting depth --------------------------------------------------------------------------------- *)
   Lemma emit_id_suppressed : forall sub i u, tr u = tr i -> u <> "" ->
-    emit_node_with kw rename infun None None rm [] sub (Node "" "Identity" [Some i] [u] [] []) = Some [].
+    emit_node_with kw rename infun use_ops None rm [] sub (Node "" "Identity" [Some i] [u] [] []) = Some [].
   Proof.
     intros sub i u E Hne. unfold emit_node_with. cbn [inl_drop].
+    assert (Hid : match use_ops with Some _ => lookup_assoc "Identity" use_operators_table | None => @None string end = None) by (destruct use_ops; reflexivity).
+    rewrite Hid. clear Hid.
     change (String.eqb "Identity" "If") with false. change (String.eqb "Identity" "Loop") with false.
     change (String.eqb "Identity" "Scan") with false. cbv iota. cbn [is_nil negb].
     unfold emit_node. change (negb (String.eqb "" "") || is_cf "Identity" || negb (is_nil (@nil (string * graph))) || existsb is_other []) with false.
@@ -1342,34 +1424,34 @@ Section Nested.
   Qed.
 
   Lemma emit_nodes_tail : forall fu ns i u sb,
-    emit_nodes kw rename infun None None rm [] fu (ns ++ [Node "" "Identity" [Some i] [u] [] []])%list = Some sb ->
-    tr u = tr i -> u <> "" -> emit_nodes kw rename infun None None rm [] fu ns = Some sb.
+    emit_nodes kw rename infun use_ops None rm [] fu (ns ++ [Node "" "Identity" [Some i] [u] [] []])%list = Some sb ->
+    tr u = tr i -> u <> "" -> emit_nodes kw rename infun use_ops None rm [] fu ns = Some sb.
   Proof.
     intros [|fu] ns i u sb H E Hne; [discriminate H|]. cbn [emit_nodes] in *. rewrite emit_all_app in H.
-    destruct (emit_all (emit_node_with kw rename infun None None rm []
-                (fun g : graph => if is_nil (g_inits g) then emit_nodes kw rename infun None None rm [] fu (g_nodes g) else None)) ns) as [s1|]; [|discriminate].
+    destruct (emit_all (emit_node_with kw rename infun use_ops None rm []
+                (fun g : graph => if is_nil (g_inits g) then emit_nodes kw rename infun use_ops None rm [] fu (g_nodes g) else None)) ns) as [s1|]; [|discriminate].
     cbn [emit_all] in H. rewrite (emit_id_suppressed _ i u E Hne) in H. cbn [app] in H. rewrite app_nil_r in H. exact H.
   Qed.
 
   Notation eval_graph := (eval_graph V sem truth trip of_nat of_bool limit).
 
   Theorem nodes_corr : forall d ns D Dfin ss fp' fg',
-    emit_nodes kw rename infun None None rm [] (S d) ns = Some ss ->
-    wf_cf kw rename rm NN brk (S d) D ns = Some Dfin ->
+    emit_nodes kw rename infun use_ops None rm [] (S d) ns = Some ss ->
+    wf_cf kw rename rm NN brk use_ops (S d) D ns = Some Dfin ->
     d <= fp' -> d <= fg' ->
     corr (eval_body (eval_graph fg')) (S fp') D Dfin ns ss.
   Proof.
     induction d as [|d IH]; intros ns D Dfin ss fp' fg' He Hw Hp Hg.
     - cbn [emit_nodes] in He. cbn [wf_cf] in Hw.
-      apply (list_corr fp' (eval_graph fg') (emit_nodes kw rename infun None None rm [] 0) (wf_cf kw rename rm NN brk 0)); [| | |exact Hw|exact He].
+      apply (list_corr fp' (eval_graph fg') (emit_nodes kw rename infun use_ops None rm [] 0) (wf_cf kw rename rm NN brk use_ops 0)); [| | |exact Hw|exact He].
       + intros D0 ns0 sb Db H0. cbn [emit_nodes] in H0. discriminate H0.
       + apply emit_nodes_tail.
       + intros ns0 sb0 H0. cbn [emit_nodes] in H0. discriminate H0.
     - destruct fp' as [|fp'']; [lia|]. destruct fg' as [|fg'']; [lia|].
-      change (emit_nodes kw rename infun None None rm [] (S (S d)) ns)
-        with (emit_all (emit_node_with kw rename infun None None rm [] (esub (emit_nodes kw rename infun None None rm [] (S d)))) ns) in He.
-      change (wf_cf kw rename rm NN brk (S (S d)) D ns) with (wf_list kw rename rm NN brk (wf_cf kw rename rm NN brk (S d)) D ns) in Hw.
-      apply (list_corr (S fp'') (eval_graph (S fg'')) (emit_nodes kw rename infun None None rm [] (S d)) (wf_cf kw rename rm NN brk (S d))); [| | |exact Hw|exact He].
+      change (emit_nodes kw rename infun use_ops None rm [] (S (S d)) ns)
+        with (emit_all (emit_node_with kw rename infun use_ops None rm [] (esub (emit_nodes kw rename infun use_ops None rm [] (S d)))) ns) in He.
+      change (wf_cf kw rename rm NN brk use_ops (S (S d)) D ns) with (wf_list kw rename rm NN brk use_ops (wf_cf kw rename rm NN brk use_ops (S d)) D ns) in Hw.
+      apply (list_corr (S fp'') (eval_graph (S fg'')) (emit_nodes kw rename infun use_ops None rm [] (S d)) (wf_cf kw rename rm NN brk use_ops (S d))); [| | |exact Hw|exact He].
       + intros D0 ns0 sb Db H0 H1. apply (IH ns0 D0 Db sb fp'' fg'' H0 H1); lia.
       + apply emit_nodes_tail.
       + intros ns0 sb0 _. discriminate.
@@ -1400,9 +1482,9 @@ Section MainCF.
   Hypothesis sem_not : forall v b, truth v = Some b -> exists r, sem "" "Not" [] [Some v] = Some [r] /\ truth r = Some (negb b).
   Hypothesis truth_total : brk = true -> forall v, exists b, truth v = Some b.
 
-  Theorem export_cf_sound : forall fname ivals g f sk,
-    export_cf kw prename rename infun None None false fname ivals g = Some (f, sk) ->
-    nested_okb kw prename rename infun brk ivals g = true ->
+  Theorem export_cf_ops_sound : forall use_ops fname ivals g f sk,
+    export_cf kw prename rename infun use_ops None false fname ivals g = Some (f, sk) ->
+    nested_ops_okb kw prename rename infun brk use_ops ivals g = true ->
     forall fp fg xs, depth_graph g <= S fp -> depth_graph g <= S fg ->
       eval_script V sem truth trip of_nat limit globals (S (S fp)) f xs =
       match init_env V sem ivals with
@@ -1410,8 +1492,8 @@ Section MainCF.
       | None => None
       end.
   Proof.
-    intros fname ivals g f sk He Hok fp fg xs Hfp Hfg.
-    unfold nested_okb in Hok. unfold export_cf in He.
+    intros use_ops fname ivals g f sk He Hok fp fg xs Hfp Hfg.
+    unfold nested_ops_okb in Hok. unfold export_cf in He.
     destruct (scan rename infun None false ivals g) as [rm consts] eqn:Esc. cbn [fst snd] in Hok.
     set (NN := nested_names rm g) in *. set (t := tr rename rm) in *.
     apply andb_true_iff in Hok; destruct Hok as [Hok K10]. apply andb_true_iff in Hok; destruct Hok as [Hok K9].
@@ -1424,7 +1506,7 @@ Section MainCF.
     { apply emit_all_ext. intros iv. reflexivity. }
     rewrite Hinit_eq in He. clear Hinit_eq.
     destruct (emit_all (emit_init kw t) ivals) as [si|] eqn:Ei; [|discriminate].
-    destruct (emit_nodes kw rename infun None None rm [] (depth_graph g) (g_nodes g)) as [sn|] eqn:En; [|discriminate].
+    destruct (emit_nodes kw rename infun use_ops None rm [] (depth_graph g) (g_nodes g)) as [sn|] eqn:En; [|discriminate].
     inversion He; subst f sk. clear He.
     assert (tr_inj : forall a b, In a NN -> In b NN -> a <> "" -> b <> "" -> t a = t b -> a = b).
     { intros a b Ha Hb _ _ E. exact (nodupb_map_inj t NN K4 a b Ha Hb E). }
@@ -1464,9 +1546,9 @@ Section MainCF.
     { intros x Hx. split; [apply HD0N; exact Hx | intros C; subst x; contradiction]. }
     cbn [depth_graph] in En, K10, Hfp, Hfg.
     match type of En with emit_nodes _ _ _ _ _ _ _ (S ?d) _ = _ => set (d0 := d) in * end.
-    destruct (wf_cf kw rename rm NN brk (S d0) (ins ++ inits)%list nodes) as [Dfin|] eqn:Ewf; [|discriminate].
+    destruct (wf_cf kw rename rm NN brk use_ops (S d0) (ins ++ inits)%list nodes) as [Dfin|] eqn:Ewf; [|discriminate].
     rewrite forallb_forall in K10.
-    destruct (nodes_corr V sem truth trip of_nat of_bool limit globals kw rename infun rm NN brk tr_inj none_free sem_identity truth_of_bool sem_not truth_total
+    destruct (nodes_corr V sem truth trip of_nat of_bool limit globals kw rename infun rm NN brk use_ops tr_inj none_free sem_identity truth_of_bool sem_not truth_total
                 d0 nodes (ins ++ inits)%list Dfin sn fp fg En Ewf ltac:(lia) ltac:(lia)) as (_ & _ & NR).
     specialize (NR e0 (rev_bind V t outer pe1) [SReturn (map (fun o => EVar (t o)) outs)] I0 HD0).
     change (Sem.eval_graph V sem truth trip of_nat of_bool limit (S fg)) with (Sem.eval_body V sem truth trip of_nat of_bool limit (Sem.eval_graph V sem truth trip of_nat of_bool limit fg)).
@@ -1477,6 +1559,17 @@ Section MainCF.
     { intros o Ho. apply memb_In. apply K10. exact Ho. }
     rewrite L1, L2. reflexivity.
   Qed.
+
+  Theorem export_cf_sound : forall fname ivals g f sk,
+    export_cf kw prename rename infun None None false fname ivals g = Some (f, sk) ->
+    nested_okb kw prename rename infun brk ivals g = true ->
+    forall fp fg xs, depth_graph g <= S fp -> depth_graph g <= S fg ->
+      eval_script V sem truth trip of_nat limit globals (S (S fp)) f xs =
+      match init_env V sem ivals with
+      | Some outer => eval_graph V sem truth trip of_nat of_bool limit (S (S fg)) outer g xs
+      | None => None
+      end.
+  Proof. exact (export_cf_ops_sound None). Qed.
 End MainCF.
 
 Require Import OV.Gen.ExportTables.
@@ -1635,31 +1728,6 @@ Section InlineSem.
   Qed.
 End InlineSem.
 
-(* use_operators: the operator expression printed for a two-input node evaluates to what the call of that operator
-   evaluates to (Script/PySem.v reads `a <op> b` through the converter's operator table primop_map), for operands that
-   are not both Python scalars (two inlined literals: Python arithmetic, which PySem leaves undefined) *)
-Section OperatorSem.
-  Variable V : Type.
-  Variable sem : string -> string -> list (string * attrv) -> list (option V) -> option (list V).
-  Variable globals : list (string * lit).
-
-  Theorem binop_denotes_call : forall cls opname a b (pe : penv V) va vb,
-    lookup_assoc cls primop_map = Some opname -> String.eqb cls "Mod" = false ->
-    eval_expr V sem globals pe a = Some va -> eval_expr V sem globals pe b = Some vb -> is_scalar V va && is_scalar V vb = false ->
-    eval_expr V sem globals pe (EBin cls a b) = eval_expr V sem globals pe (ECall (COp opname) [Some a; Some b] []).
-  Proof.
-    intros cls opname a b pe va vb Hop Hmod Ha Hb Hsc. cbn [PySem.eval_expr]. rewrite Hop, Ha, Hb, Hsc.
-    unfold binop_attrs. rewrite Hmod. reflexivity.
-  Qed.
-
-  Theorem cmpop_denotes_call : forall cls opname a b (pe : penv V) va vb,
-    lookup_assoc cls primop_map = Some opname -> String.eqb opname "NotEqual" = false ->
-    eval_expr V sem globals pe a = Some va -> eval_expr V sem globals pe b = Some vb -> is_scalar V va && is_scalar V vb = false ->
-    eval_expr V sem globals pe (ECmp cls a b) = eval_expr V sem globals pe (ECall (COp opname) [Some a; Some b] []).
-  Proof.
-    intros cls opname a b pe va vb Hop Hne Ha Hb Hsc. cbn [PySem.eval_expr]. rewrite Hop, Ha, Hb, Hsc, Hne. reflexivity.
-  Qed.
-End OperatorSem.
 
 (* every entry of the use_operators table found in the source prints an operator that the converter reads back as the
    entry's own ONNX operator (none of them is Mod or NotEqual) -- but for the dead entry "Lesser", which names no operator *)
@@ -1699,3 +1767,22 @@ Theorem export_forbreak_example :
   zscript2 f_forbreak [5%Z; 2%Z] = Some [3%Z] /\ zgraph2 [] g_forbreak [5%Z; 2%Z] = Some [3%Z] /\
   zscript2 f_forbreak [(-1)%Z; 4%Z] = Some [(-1)%Z] /\ zgraph2 [] g_forbreak [(-1)%Z; 4%Z] = Some [(-1)%Z].
 Proof. vm_compute. repeat split. Qed.
+
+(* non-vacuity of the theorem with use_operators on: the nested example printed with operators (`-`, `+`) is in the class
+   and computes the same values *)
+Theorem export_nested_ops_example :
+  nested_ops_okb kwlist (cleanup kwlist) (cleanup kwlist) false false (Some true) iv_nested g_nested = true /\
+  exists f, export_cf kwlist (cleanup kwlist) (cleanup kwlist) false (Some true) None false "g" iv_nested g_nested = Some (f, []) /\
+            In (SAssign "y" (EBin "Sub" (EVar "r_0") (EVar "x"))) (f_body f) /\
+            zscript2 f [(-3)%Z] = Some [94%Z] /\ zscript2 f [5%Z] = Some [(-10)%Z].
+Proof. split; [vm_compute; reflexivity|]. eexists. split; [vm_compute; reflexivity|]. split; [cbn; tauto|]. split; vm_compute; reflexivity. Qed.
+
+(* a node of another domain that happens to be called like an entry of the operator table is printed as the operator all
+   the same (the exporter looks at op_type only): outside the class (op_line_okb), and the program denotes something else *)
+Definition g_foreign_add : graph :=
+  Graph ["x"] [] [Node "custom" "Add" [Some "x"; Some "x"] ["y"] [] []] ["y"].
+Theorem export_foreign_domain_operator :
+  exists f, export_cf kwlist (cleanup kwlist) (cleanup kwlist) false (Some true) None false "g" [] g_foreign_add = Some (f, []) /\
+            f_body f = [SAssign "y" (EBin "Add" (EVar "x") (EVar "x")); SReturn [EVar "y"]] /\
+            nested_ops_okb kwlist (cleanup kwlist) (cleanup kwlist) false false (Some true) [] g_foreign_add = false.
+Proof. eexists. repeat split; vm_compute; reflexivity. Qed.
